@@ -41,7 +41,7 @@ WellFormed(o) ==
   /\ o.sk \in {"lit", "env", "el"}
   /\ (o.sk = "lit" => o.ra = "" /\ o.x.t # "cx" /\ HasLit(o.x) /\ o.rc = LitOf(o.x))
   /\ (o.sk = "env" => o.ra = "%x" /\ o.rc = <<>> /\ o.x.t # "cx")
-  /\ (o.sk = "el" /\ o.x.t # "cx" => o.ra = ElemPath /\ o.rc = <<>> /\ o.fk \in FhirKinds(o.x, TRUE))
+  /\ (o.sk = "el" /\ o.x.t # "cx" => o.ra = ElemPath /\ o.rc = <<>> /\ o.fk \in FhirKinds(o.x, TRUE, TRUE))
   /\ (o.x.t # "cx" => o.x.t \in SystemTags)
 
 (******************************** denotation *******************************)
